@@ -562,6 +562,10 @@ class Printer:
 
     def template_text(self, ref, name):
         """explicit template arguments of a call as written in the source (`lpNorm<Eigen::Infinity>` -> '|<Eigen::Infinity>')"""
+        txt0 = node_text(ref)      # file recovered by replaying clang's "file only when changed" rule (robust for headers)
+        if txt0:
+            m0 = re.search(re.escape(name) + r'\s*<(.*)>\s*$', txt0, re.S)
+            return f'|<{re.sub(chr(92) + "s+", "", m0.group(1))}>' if m0 else ''
         try:
             rng = ref.get('range', {})
             b, e = rng.get('begin', {}), rng.get('end', {})
